@@ -570,6 +570,7 @@ def run(ctx):
                "the slice returned by Base64::decode is discarded: a shorter key is silently zero-padded to the cipher's key size")
 
     g8_document_reaches_the_types_unedited(ctx)
+    g9_sections_select_the_transport(ctx)
     # ---------------- G6 -----------------------------------------------------------------------
     start_fns = [b for b in prog.prod_bodies() if (b.defp.startswith("octo_squirrel::config::") or b.defp.startswith("octo_squirrel::log::")
                  or "::config::init" in b.defp or b.defp.endswith("config::{impl#0}::get_current") or "ClientConfig" in (b.impl_self_def or ""))
@@ -913,3 +914,33 @@ def g8_document_reaches_the_types_unedited(ctx):
                    f"`{c.name}` takes members out of the JSON document on the way from the config file to the config types: which transport an entry uses is selected by the "
                    "*presence* of its `ssl` / `ws` / `quic` section, so a section that is present but empty (every member optional) or null is silently turned into `absent` "
                    "and the entry runs without the transport its configuration names")
+
+
+def g9_sections_select_the_transport(ctx):
+    """G9: the `ssl` / `ws` / `quic` sections of an entry select the transport exactly as the README's table says (quic wins; ssl+ws = wss; ...), on the
+    client's selector and on the server's listener: C01's W1 finite-configuration evaluation (all section combinations, value tracking through
+    helper functions and through enum values such as a `Transport` built from the sections) re-evaluated."""
+    from ..engine import Ctx
+    from . import c01
+    busy = ctx.prog.__dict__.setdefault("_importing", set())
+    if "C16" in busy:
+        return
+    busy.add("C16")
+    try:
+        sub = Ctx(ctx.prog, "C01", ctx.tier)
+        sub.repo = getattr(ctx, "repo", None)
+        c01.w1_only(sub)
+    finally:
+        busy.discard("C16")
+    n = 0
+    for o in sub.obs:
+        if o.rule == "W1":
+            n += 1
+            parts = o.key.split("|")
+            ctx.ob("G9", parts[1], parts[2], o.where, o.ok, o.detail, ordinal=len(parts) > 3)
+    for (r, w, e, f) in sub.floors:
+        if r == "W1":
+            ctx.floor("G9", w, e, f)
+    for (r, w) in sub.anchors_lost:
+        if r == "W1":
+            ctx.anchor_lost("G9", w)
